@@ -15,6 +15,7 @@ The theorems about this composition (Props/C01, C02, C06: `module_connections_pr
 import Hdl21Model.ExportWF
 import Hdl21Model.ConnTypes
 import Hdl21Model.ArrayPass
+import Hdl21Model.Orphanage
 namespace Hdl21.ModulePipe
 open Hdl21 Hdl21.Pkg Hdl21.RoundTrip Hdl21.ExportWF
 
@@ -135,6 +136,38 @@ def pipelineA (fuel : Nat) (ctx : PRef → Option (List (String × Nat))) (nm : 
   else match flattenArrays ctx nm arrs.reverse h with
     | .error e => .error e
     | .ok h' => pipeline fuel ctx h'
+
+/-! ## `Orphanage` as the code has it: connections made of objects that carry their owner -/
+
+/-- an instance whose connections are made of owned objects (Orphanage.lean: `_parent_module` of every Signal a connection is made of) -/
+structure OInst where
+  name : String
+  ref : PRef
+  params : List (String × String)
+  conns : List (String × Orphanage.OConn)
+
+def eraseConns : List (String × Orphanage.OConn) → Option (List (String × SConn))
+  | [] => some []
+  | (p, c) :: rest =>
+    match Orphanage.erase c, eraseConns rest with
+    | some s, some r => some ((p, s) :: r)
+    | _, _ => none
+
+def eraseInsts : List OInst → Option (List HInst)
+  | [] => some []
+  | i :: rest =>
+    match eraseConns i.conns, eraseInsts rest with
+    | some cs, some r => some (⟨i.name, i.ref, i.params, cs⟩ :: r)
+    | _, _ => none
+
+/-- the pass list with the real ownership check in front: `Orphanage.checkConn me` on every connection of every instance of the
+    module whose identity is `me`, then (what is left is Signal / Slice / Concat) the pipeline above -/
+def pipelineO (fuel : Nat) (ctx : PRef → Option (List (String × Nat))) (me : Nat) (name : String) (signals ports : List HSig)
+    (insts : List OInst) : Except Err PModule :=
+  if !(insts.all fun i => i.conns.all fun pc => Orphanage.checkConn me pc.2) then .error (.reject "Orphanage")
+  else match eraseInsts insts with
+    | none => .error (.reject "a connection that is no Signal / Slice / Concat")
+    | some is => pipeline fuel ctx ⟨name, signals, ports, is⟩
 
 /-- fuel that the resolver never runs out of on the connections of `h` (`resolve_total`: `needR c` suffices for a connection that
     has a denotation; `module_elaboration_accepts` uses it) -/
